@@ -13,4 +13,5 @@ def register(K):
                returns="val",
                requires=["pickle.loads is stock_loads()"],
                may_raise=["exception.UnsafeFileError", "Exception"],
+               modifies=["@list.items:nodeowned", "@ast.lineno", "@ast.col_offset", "@iterator.pos"],
                ensures=[])
